@@ -14,8 +14,16 @@ def _text(req):
 
 
 def nontrivial(req, obs):
-    if req.startswith("C10.emit"):
-        return not obs.startswith("!")
+    if req.startswith("C10.emit") or req.startswith("C10.fmt"):
+        return not obs.startswith("!") and obs != ""
+    if req.startswith("C10.pp"):
+        # tokens from at least two files (an included file, a define or a `##` result)
+        m = re.search(r" from=(\S+)", obs)
+        return bool(m) and m.group(1).count(",") >= 1
+    if req.startswith("C10.loc"):
+        return obs.count(",") >= 3
+    if req.startswith("C10.diag"):
+        return obs != "ok" and ": error: " in obs
     # at least three tokens, or a numeric literal
     return obs.count(";") >= 2 or any(k in obs for k in NUMERIC)
 
@@ -23,6 +31,13 @@ def nontrivial(req, obs):
 def finding_key(req, obs, detail):
     """known defects are keyed by call site, everything else by the exact request"""
     d = detail or ""
+    # the one single-precision value whose shortest decimal (7.038531e-26) lies so close to the midpoint of two
+    # singles that its nearest double IS that midpoint: read back through the double it becomes the neighbour
+    if re.search(r"\b[19]5ae43fd\b", d) and re.search(r"\b15ae43fe\b", d) and "07038531" in d and \
+            (d.startswith("FAIL:emit Float") or d.startswith("FAIL:fmt Float")):
+        return "formatter.rs format_literal: single 0x15ae43fd printed with f32 Display digits (7.038531e-26) reads back as 0x15ae43fe"
+    if d.startswith("FAIL:panic formatter/src/formatter.rs:") and d.endswith(": invalid msl"):
+        return "panic formatter/src/formatter.rs fn write_infinity_f64: invalid msl"
     if "as_ptr_range" in d:
         # which `end_of_stream()` produced the `&[]`: find the start of the failing token
         ends = re.findall(r" (\d+)(?:;| !|$)", obs.split(" !")[0] + ";") if obs.split(" !")[0] else []
@@ -100,7 +115,7 @@ def search(ctx):
 
 SPEC = {
     "id": "C10",
-    "gens": ["LexTables"],
+    "gens": ["LexTables", "LitFormatTables", "SourceMapTables"],
     "lean_modules": ["RsslVerif.Thm.C10"],
     "theorems": [T + n for n in [
         "token_progress", "token_error_in_input", "token_no_panic", "spans_tile", "reemit_reproduces_input",
